@@ -191,31 +191,43 @@ func (u *upstream) chooseHost(routingKey []byte, req *simpleRequest) (string, er
 }
 
 func (u *upstream) MakeRequestToHost(addr string, req *simpleRequest) {
-	// request metrics
-	u.stats.RqTotal.Inc()
-	req.RegisterHook(func(req *simpleRequest) {
-		if req.Response().Type == Error {
-			u.stats.RqFailureTotal.Inc()
-		} else {
-			u.stats.RqSuccessTotal.Inc()
-		}
-		u.stats.RqDurationMs.Record(uint64(req.Duration() / time.Millisecond))
-	})
+	u.makeRequestsToHost(addr, req)
+}
 
+// makeRequestsToHost sends the requests to the given host back to back.
+func (u *upstream) makeRequestsToHost(addr string, reqs ...*simpleRequest) {
+	// request metrics
+	for _, req := range reqs {
+		u.stats.RqTotal.Inc()
+		req.RegisterHook(func(req *simpleRequest) {
+			if req.Response().Type == Error {
+				u.stats.RqFailureTotal.Inc()
+			} else {
+				u.stats.RqSuccessTotal.Inc()
+			}
+			u.stats.RqDurationMs.Record(uint64(req.Duration() / time.Millisecond))
+		})
+	}
+
+	fail := func(msg string) {
+		for _, req := range reqs {
+			req.SetResponse(newError(msg))
+		}
+	}
 	select {
 	case <-u.quit:
-		req.SetResponse(newError(upstreamExited))
+		fail(upstreamExited)
 		return
 	default:
 	}
 
 	c, err := u.getClient(addr)
 	if err != nil {
-		req.SetResponse(newError(err.Error()))
+		fail(err.Error())
 		return
 	}
 	// TODO: detect client status
-	c.Send(req)
+	c.Send(reqs...)
 }
 
 func (u *upstream) getClient(addr string) (*client, error) {
@@ -346,8 +358,9 @@ func (u *upstream) handleRedirection(req *simpleRequest, resp *RespValue) {
 		askingReq := newSimpleRequest(newArray(
 			*newBulkString(ASKING),
 		))
-		u.MakeRequestToHost(hostAddr, askingReq)
-		u.MakeRequestToHost(hostAddr, req)
+		// NOTE: ASKING only covers the next command of the connection,
+		// both must reach the backend back to back.
+		u.makeRequestsToHost(hostAddr, askingReq, req)
 	default:
 		// NOTE: the caller matches the prefix with unicode case folding,
 		// which also accepts spellings like "AſK"; such a reply is no
@@ -540,6 +553,9 @@ type client struct {
 
 	filter         *FilterChain
 	keyCounter     *hotkey.Counter
+	// sendMu keeps the requests of one Send call next to each other in
+	// the pending queue.
+	sendMu         sync.Mutex
 	pendingReqs    chan *simpleRequest
 	processingReqs chan *simpleRequest
 	onRedirection  func(req *simpleRequest, resp *RespValue)
@@ -623,7 +639,18 @@ func (c *client) Start() {
 	close(c.done)
 }
 
-func (c *client) Send(req *simpleRequest) {
+// Send queues the requests for the backend. Requests passed in one call are
+// written back to back, no request of another caller gets in between (the
+// ASKING flag only covers the very next command of the connection).
+func (c *client) Send(reqs ...*simpleRequest) {
+	c.sendMu.Lock()
+	defer c.sendMu.Unlock()
+	for _, req := range reqs {
+		c.send(req)
+	}
+}
+
+func (c *client) send(req *simpleRequest) {
 	select {
 	case <-c.quit:
 		req.SetResponse(newError(backendExited))
